@@ -351,8 +351,9 @@ void cmb_dataset_fivenum_print(const struct cmb_dataset *dsp,
         const double max = dsc.max;
         const double med = data_array_median(dsc.count, dsc.xa);
 
+        /* A single sample has empty halves: its quartiles are the sample itself */
         const unsigned lhsz = dsc.count / 2;
-        const double q1 = data_array_median(lhsz, dsc.xa);
+        const double q1 = (lhsz > 0u) ? data_array_median(lhsz, dsc.xa) : med;
         double q3;
         const unsigned uhsz = dsc.count - lhsz;
         if ((dsc.count % 2) == 0) {
@@ -360,7 +361,8 @@ void cmb_dataset_fivenum_print(const struct cmb_dataset *dsp,
             q3 = data_array_median(uhsz, &(dsc.xa[lhsz]));
         } else {
             /* Odd number of entries, exclude the median entry */
-            q3 = data_array_median(uhsz - 1, &(dsc.xa[lhsz + 1]));
+            q3 = (uhsz > 1u) ? data_array_median(uhsz - 1, &(dsc.xa[lhsz + 1]))
+                             : med;
         }
 
         const int r = fprintf(fp, "%s%#8.4g%s%#8.4g%s%#8.4g%s%#8.4g%s%#8.4g\n",
